@@ -150,3 +150,231 @@ Section NoLog.
       exists r0. fold s'. split; [apply (mo_recs _ _ M r0 L0) | now rewrite (pkr_mono s s' r0 M L0)].
   Qed.
 End NoLog.
+
+(* ------------------------------------------------------------------ *)
+(* the eager schedule and the timers *)
+Lemma timers_settle s : timers (settle s) = map (fire (clock s + 0)) (timers s).
+Proof.
+  assert (G : forall l s0, timers (fold_left (fun s i => wake repaired s i true) l s0) = timers s0).
+  { induction l as [|i l IH]; intros s0; cbn [fold_left]; [reflexivity|]. rewrite IH. apply timers_wake. }
+  unfold settle. rewrite G. reflexivity.
+Qed.
+Lemma settle_timer_live s t z : nth_error (timers s) t = Some z -> live z ->
+  exists z', nth_error (timers (settle s)) t = Some z' /\ live z' /\ tdead z' = tdead z.
+Proof.
+  intros Hz Lz. rewrite timers_settle, nth_error_map, Hz. cbn [option_map]. eexists. split; [reflexivity|].
+  unfold fire, live in *. destruct (tst z) eqn:Es; try (destruct Lz; discriminate); [destruct (N.leb _ _); cbn [tst tdead with_tst]; rewrite ?Es; auto | rewrite Es; auto].
+Qed.
+Lemma getr_settle s q : getr (settle s) q = getr s q.
+Proof. unfold getr. destruct (settle_frame s) as (_ & E & _). now rewrite E. Qed.
+
+Lemma e_live_has_ctx m e s' : RCtx (e_ctx m e) (e_canc m e) s' -> e_live m e = true -> has_ctx s' = true.
+Proof.
+  intros [[E|[E1 E2]] C] H. unfold e_live in H. apply andb_true_iff in H as [H1 H2].
+  - unfold has_ctx. rewrite E. now rewrite nz_n2n.
+  - unfold e_live in H. apply andb_true_iff in H as [H1 H2]. rewrite (root_canc_nmem s' _ _ C) in E2. rewrite E2 in H2. discriminate.
+Qed.
+
+Lemma bo_of_aset_same bo key v : bo_of (aset bo key v) key = v. Proof. unfold bo_of. now rewrite alook_aset_same. Qed.
+Lemma bo_of_aset_other bo key v key' : key' <> key -> bo_of (aset bo key v) key' = bo_of bo key'.
+Proof. intros H. unfold bo_of. now rewrite alook_aset_other. Qed.
+
+Section Book.
+  Variables (m : mst) (h : hst).
+  Hypothesis Hh : HR h.
+  Hypothesis Hrel : Rel m h.
+  Hypothesis HRR : RRet m (hs h).
+  Variables (i : N) (x : inst) (o : outcome).
+  Hypothesis Hx : nth_error (insts (hs h)) (n2n i) = Some x.
+  Hypothesis Hp : ipcv x = IBook o.
+
+  Let s := hs h.
+  Let s1 := bookkeep s (n2n i).
+  Let s' := next h (EBook (n2n i)).
+  Let p := pobs_of [] s' (hlog h).
+  Let r := irec x.
+  Let y := getr s r.
+
+  Lemma book_s' : s' = settle s1. Proof. reflexivity. Qed.
+  Lemma book_news : news_of m p = [].
+  Proof.
+    unfold news_of, p. cbn [po_insts pobs_of]. destruct Hrel as [_ _ Hn _ _]. rewrite Hn. fold s.
+    destruct (bookkeep_facts s (n2n i) x o Hx Hp) as (_ & B2 & _). cbn zeta in B2. fold s1 in B2.
+    destruct (settle_frame s1) as (_ & _ & _ & _ & S5 & _). rewrite <- B2, <- S5, <- (map_length icode5). apply skipn_all.
+  Qed.
+  Lemma book_kmap : kmap s' = kmap s.
+  Proof. destruct (settle_frame s1) as (S1 & _). rewrite book_s', S1. apply kmap_bookkeep. Qed.
+
+  Theorem RRet_book : RRet (fst (mon1 m [16; i] p)) s'.
+  Proof.
+    pose proof (Reach_J _ (hr_reach _ Hh)) as HJ. pose proof (Reach_J2 _ (hr_reach _ Hh)) as HJ2. fold s in HJ, HJ2.
+    pose proof (Reach_ID _ (hr_reach _ Hh)) as ((W1 & W2) & D1s & D2s & D4s). fold s in W1, W2, D1s, D2s, D4s.
+    assert (HR' : Reach s') by (apply Reach_settle, Reach_step, Hh).
+    pose proof (Reach_ID _ HR') as HID'.
+    pose proof (W2 _ _ Hx) as Rl. fold r in Rl.
+    assert (M : Mono s s') by (apply next_Mono).
+    destruct Hrel as [(Edl & Esc & Eclk) HCtx _ _ _]. fold s in Edl, Esc, Eclk.
+    destruct (bookkeep_facts s (n2n i) x o Hx Hp) as (B1 & B2 & B3 & B4). cbn zeta in B1, B2, B3, B4. fold s1 r y in B1, B2, B3, B4.
+    destruct (settle_frame s1) as (S1 & S2 & S3 & _ & _ & S6 & _). rewrite <- book_s' in S1, S2, S3, S6.
+    assert (GR : forall q, getr s' q = getr s1 q) by (intros q; rewrite book_s'; apply getr_settle).
+    (* the deltas of the observation *)
+    assert (Edelta : po_delta p = map dcode3 (skipn (length (cblog s)) (cblog s1))).
+    { unfold p. cbn [po_delta pobs_of]. destruct Hh as [_ E]. fold s in E. now rewrite E, S3. }
+    (* what survives of an old obligation: the record is another one *)
+    assert (Keep : forall k dl, alook (m_retry m) k = Some dl -> (forall q, q <> r -> getr s1 q = getr s q) ->
+              (forall t z, nth_error (timers s) t = Some z -> rretry y <> Some t -> nth_error (timers s1) t = Some z) ->
+              (lookup (kmap s) (n2n k) <> Some r) ->
+              exists rec t x0, lookup (kmap s') (n2n k) = Some rec /\ rretry (getr s' rec) = Some t /\ nth_error (timers s') t = Some x0 /\ live x0 /\ tdead x0 = dl).
+    { intros k dl Hk Gq Gt Hne. destruct (rr_ob _ _ HRR k dl Hk) as (rec & t & z & Hreg & Hr & Hz & Lz & Ed). fold s in Hreg, Hr, Hz.
+      assert (Hrec : rec <> r) by (intros ->; contradiction).
+      assert (Hty : rretry y <> Some t).
+      { intros E. destruct (j2_rt _ HJ2 r t E) as (z1 & Hz1 & T1). destruct (j2_rt _ HJ2 rec t Hr) as (z2 & Hz2 & T2). congruence. }
+      destruct (settle_timer_live s1 t z (Gt t z Hz Hty) Lz) as (z' & Hz' & Lz' & Ed').
+      exists rec, t, z'. rewrite book_kmap, GR, (Gq rec Hrec). rewrite <- book_s' in Hz'. repeat split; auto. congruence. }
+    destruct B4 as [(Bc & Bl & _ & _)|(Bl & _)].
+    - (* the exit of the record's current instance is recorded *)
+      destruct (bookkeep_retry s (n2n i) x o Hx Hp Bc Rl) as (Gq & Gt & Gc). cbn zeta in Gq, Gt, Gc. fold s1 r y in Gq, Gt, Gc.
+      rewrite Bl, skipn_app, skipn_all, Nat.sub_diag in Edelta. cbn [skipn app map dcode3] in Edelta.
+      set (kd := N.of_nat (rkey y)) in *. set (d := rdata y) in *.
+      (* is the record the key's current one *)
+      assert (Ecur : match alook (po_keys p) kd with Some d' => N.eqb d d' | None => false end = in_map s r).
+      { unfold p. rewrite po_keys_okeys, alook_okeys. unfold kd. rewrite n2n_of_nat, book_kmap. unfold in_map. fold y.
+        destruct (lookup (kmap s) (rkey y)) as [rec|] eqn:Ek; [|reflexivity]. cbn [option_map]. destruct (W1 _ _ Ek) as [Lr Kr].
+        destruct (Nat.eqb_spec rec r) as [->|Hne].
+        - rewrite GR. destruct (mo_recs _ _ (Mono_step s (EBook (n2n i))) r Rl) as (_ & _ & _ & Dd). cbn [step] in Dd. fold s1 in Dd. unfold d, y. rewrite Dd. apply N.eqb_refl.
+        - rewrite GR, (Gq rec Hne). apply N.eqb_neq. intros E. apply Hne. apply D2s; [exact Lr | exact Rl | unfold y in Kr; now rewrite Kr | now symmetry]. }
+      assert (Epk : pk kd d = pkr s r) by reflexivity.
+      assert (Ekd : n2n kd = rkey y) by (unfold kd; apply n2n_of_nat).
+      assert (Ereg : in_map s r = true -> lookup (kmap s) (n2n kd) = Some r) by (intros E; rewrite Ekd; now apply in_map_lookup).
+      assert (Enreg : in_map s r = false -> lookup (kmap s) (n2n kd) <> Some r).
+      { intros E E2. rewrite Ekd in E2. unfold in_map in E. fold y in E. rewrite E2, Nat.eqb_refl in E. discriminate. }
+      unfold retry1_of, retry0_of in *. cbn [fst mon1 m_retry m_bo m_script].
+      constructor; cbn [m_retry m_bo m_script].
+      + (* sorted *) unfold retry3_of. destruct (e_live m [16; i]); [|exact I]. apply asorted_filter, asorted_fold_adel.
+        unfold retry1_of, retry0_of. rewrite Edelta. cbn [fold_left retry_delta snd].
+        repeat match goal with |- context [match ?c with _ => _ end] => destruct c end; cbn [snd]; try apply asorted_aset; try apply asorted_adel; apply HRR.
+      + (* no script *) intros Hs. unfold retry3_of. destruct (e_live m [16; i]); [|reflexivity]. rewrite book_news. cbn [map fold_left].
+        unfold retry1_of, retry0_of. rewrite Edelta. cbn [fold_left retry_delta]. rewrite Hs, (rr_none _ _ HRR Hs).
+        repeat match goal with |- context [match ?c with _ => _ end] => destruct c end; reflexivity.
+      + (* obligations *)
+        intros k dl Hk. unfold retry3_of in Hk. destruct (e_live m [16; i]) eqn:El; [|discriminate]. rewrite book_news in Hk. cbn [map fold_left] in Hk.
+        change (fun kd0 : N * N => ahas (po_keys p) (fst kd0)) with (fun kd0 : N * N => (fun k0 => ahas (po_keys p) k0) (fst kd0)) in Hk.
+        rewrite alook_filter_key in Hk. destruct (ahas (po_keys p) k) eqn:Epres; [|discriminate].
+        unfold retry1_of, retry0_of in Hk. rewrite Edelta in Hk. cbn [fold_left retry_delta] in Hk. fold kd d in Hk. rewrite Ecur in Hk.
+        rewrite Esc in Hk. clear Epres.
+        destruct (nz (enc_out o)) eqn:Enz; rewrite nz_enc_out in Enz.
+        * (* an error *) apply negb_true_iff in Enz. rewrite Enz in Gc. destruct (in_map s r) eqn:Em.
+          -- cbn [snd] in Hk. destruct (script s) as [l|] eqn:Escr.
+             ++ assert (Eidx : match alook (m_bo m) (pk kd d) with Some i0 => i0 | None => 0%nat end = rbo y).
+                { rewrite Epk. apply (rr_bo _ _ HRR); [rewrite Esc; discriminate | exact Rl]. }
+                rewrite Eidx in Hk. destruct (nth_error l (rbo y)) as [dur|] eqn:En.
+                ** destruct (N.eq_dec k kd) as [->|Hne].
+                   --- rewrite alook_aset_same in Hk. inversion Hk; subst dl. destruct Gc as (_ & Gr & Gn).
+                       destruct (settle_timer_live s1 _ _ Gn (or_introl eq_refl)) as (z' & Hz' & Lz' & Ed'). cbn [tdead] in Ed'.
+                       exists r, (length (timers s)), z'. rewrite book_kmap, GR, Gr. rewrite <- book_s' in Hz'. repeat split; auto.
+                       rewrite Ed'. cbn [e_clock]. now rewrite Eclk.
+                   --- rewrite alook_aset_other in Hk by exact Hne. apply (Keep k dl Hk Gq Gt). rewrite (Ereg eq_refl) || idtac.
+                       intros E. apply Hne. apply n2n_inj. rewrite Ekd. destruct (W1 _ _ E) as [_ K]. exact (eq_sym K).
+                ** destruct (N.eq_dec k kd) as [->|Hne]; [rewrite alook_adel_same in Hk; discriminate|]. rewrite alook_adel_other in Hk by exact Hne.
+                   apply (Keep k dl Hk Gq Gt). intros E. apply Hne. apply n2n_inj. rewrite Ekd. destruct (W1 _ _ E) as [_ K]. exact (eq_sym K).
+             ++ destruct (N.eq_dec k kd) as [->|Hne]; [rewrite alook_adel_same in Hk; discriminate|]. rewrite alook_adel_other in Hk by exact Hne.
+                apply (Keep k dl Hk Gq Gt). intros E. apply Hne. apply n2n_inj. rewrite Ekd. destruct (W1 _ _ E) as [_ K]. exact (eq_sym K).
+          -- cbn [snd] in Hk. apply (Keep k dl Hk Gq Gt). intros E. apply (Enreg eq_refl). rewrite <- E. f_equal. rewrite Ekd. destruct (W1 _ _ E) as [_ K]. exact K.
+        * (* a success *) apply negb_false_iff in Enz. cbn [snd] in Hk. destruct (in_map s r) eqn:Em.
+          -- destruct (N.eq_dec k kd) as [->|Hne]; [rewrite alook_adel_same in Hk; discriminate|]. rewrite alook_adel_other in Hk by exact Hne.
+             apply (Keep k dl Hk Gq Gt). intros E. apply Hne. apply n2n_inj. rewrite Ekd. destruct (W1 _ _ E) as [_ K]. exact (eq_sym K).
+          -- apply (Keep k dl Hk Gq Gt). intros E. apply (Enreg eq_refl). rewrite <- E. f_equal. rewrite Ekd. destruct (W1 _ _ E) as [_ K]. exact K.
+      + (* back-off indices *)
+        intros Hs q Hq. rewrite S2, B3 in Hq. unfold retry1_of, retry0_of. rewrite Edelta. cbn [fold_left retry_delta]. fold kd d. rewrite Ecur, Epk.
+        assert (Ep' : forall q0, (q0 < length (recs s))%nat -> pkr s' q0 = pkr s q0) by (intros q0 L0; now apply pkr_mono).
+        rewrite (Ep' q Hq), GR. rewrite Esc in Hs.
+        assert (Eidx : match alook (m_bo m) (pkr s r) with Some i0 => i0 | None => 0%nat end = rbo y) by (apply (rr_bo _ _ HRR); [now rewrite Esc | exact Rl]).
+        assert (Eoth : q <> r -> pkr s q <> pkr s r) by (intros Hne E; apply Hne; apply (pkr_inj s q r); [apply Reach_ID, Hh | exact Hq | exact Rl | exact E]).
+        destruct (script s) as [l|] eqn:Escr; [|contradiction].
+        destruct (nz (enc_out o)) eqn:Enz; rewrite nz_enc_out in Enz.
+        * apply negb_true_iff in Enz. rewrite Enz in Gc. destruct (in_map s r) eqn:Em; cbn [fst].
+          -- rewrite Eidx. destruct (Nat.eq_dec q r) as [->|Hne].
+             ++ rewrite bo_of_aset_same. destruct (nth_error l (rbo y)); [destruct Gc as (G1 & _) | destruct Gc as (G1 & _)]; now rewrite G1.
+             ++ rewrite bo_of_aset_other by (now apply Eoth). rewrite (Gq q Hne). now apply (rr_bo _ _ HRR); [rewrite Esc|].
+          -- destruct (Nat.eq_dec q r) as [->|Hne]; [destruct Gc as (G1 & _); rewrite G1; exact Eidx|].
+             rewrite (Gq q Hne). now apply (rr_bo _ _ HRR); [rewrite Esc|].
+        * apply negb_false_iff in Enz. rewrite Enz in Gc. cbn [fst]. destruct (Nat.eq_dec q r) as [->|Hne].
+          -- rewrite bo_of_aset_same. destruct Gc as (_ & G1). now rewrite G1.
+          -- rewrite bo_of_aset_other by (now apply Eoth). rewrite (Gq q Hne). now apply (rr_bo _ _ HRR); [rewrite Esc|].
+      + (* entries *)
+        intros key i0 Hi. unfold retry1_of, retry0_of in Hi. rewrite Edelta in Hi. cbn [fold_left retry_delta] in Hi. fold kd d in Hi. rewrite Ecur, Epk in Hi.
+        assert (Old : forall key0 i1, alook (m_bo m) key0 = Some i1 -> exists r0, (r0 < length (recs s'))%nat /\ key0 = pkr s' r0).
+        { intros key0 i1 H0. destruct (rr_ent _ _ HRR _ _ H0) as (r0 & L0 & E0). fold s in L0, E0. exists r0. split; [apply (mo_recs _ _ M r0 L0) | now rewrite (pkr_mono s s' r0 M L0)]. }
+        assert (New : exists r0, (r0 < length (recs s'))%nat /\ pkr s r = pkr s' r0) by (exists r; split; [apply (mo_recs _ _ M r Rl) | now rewrite (pkr_mono s s' r M Rl)]).
+        destruct (nz (enc_out o)); [destruct (in_map s r)|]; cbn [fst] in Hi;
+          try (destruct (N.eq_dec key (pkr s r)) as [->|Hne]; [exact New | rewrite alook_aset_other in Hi by exact Hne; eauto]); eauto.
+    - (* nothing is recorded *)
+      assert (Erecs : recs s1 = recs s /\ timers s1 = timers s).
+      { pose proof Hx as Hx'. fold s in Hx'. unfold s1, bookkeep. rewrite Hx', Hp. fold r y. destruct (rctx y) as [j0|] eqn:Ec; [|split; reflexivity].
+        destruct (Nat.eqb_spec j0 (n2n i)) as [->|Hne]; [|split; reflexivity]. exfalso.
+        destruct (bookkeep_facts s (n2n i) x o Hx Hp) as (_ & _ & _ & [(_ & Bl' & _)|(Bl' & _)]); cbn zeta in Bl'; fold s1 r y in Bl'.
+        - rewrite Bl in Bl'. apply (f_equal (@length _)) in Bl'. rewrite app_length in Bl'. cbn in Bl'. lia.
+        - revert Bl. unfold s1, bookkeep. rewrite Hx', Hp. fold r y. rewrite Ec, Nat.eqb_refl. intros Bl2.
+          apply (f_equal (@length _)) in Bl2. revert Bl2. repeat match goal with |- context [match ?c with _ => _ end] => destruct c end;
+            cbn [cblog set_cblog]; rewrite app_length; cbn [length]; cbn [cblog setr set_recs set_timers seti set_insts]; rewrite ?cblog_stop_timer; cbn [cblog seti set_insts]; lia. }
+      destruct Erecs as [ER ET].
+      assert (Edelta0 : po_delta p = []) by (rewrite Edelta, Bl, skipn_all; reflexivity).
+      assert (Gq : forall q, getr s1 q = getr s q) by (intros q; unfold getr; now rewrite ER).
+      constructor; cbn [fst mon1 m_retry m_bo m_script]; unfold retry1_of, retry0_of; rewrite ?Edelta0; cbn [fold_left fst snd].
+      + unfold retry3_of. destruct (e_live m [16; i]); [|exact I]. apply asorted_filter, asorted_fold_adel. unfold retry1_of, retry0_of. rewrite Edelta0. apply HRR.
+      + intros Hs. unfold retry3_of. destruct (e_live m [16; i]); [|reflexivity]. rewrite book_news. unfold retry1_of, retry0_of. rewrite Edelta0. cbn [map fold_left snd].
+        now rewrite (rr_none _ _ HRR Hs).
+      + intros k dl Hk. unfold retry3_of in Hk. destruct (e_live m [16; i]); [|discriminate]. rewrite book_news in Hk. unfold retry1_of, retry0_of in Hk. rewrite Edelta0 in Hk.
+        cbn [map fold_left snd] in Hk.
+        change (fun kd0 : N * N => ahas (po_keys p) (fst kd0)) with (fun kd0 : N * N => (fun k0 => ahas (po_keys p) k0) (fst kd0)) in Hk.
+        rewrite alook_filter_key in Hk. destruct (ahas (po_keys p) k); [|discriminate].
+        destruct (rr_ob _ _ HRR k dl Hk) as (rec & t & z & Hreg & Hr & Hz & Lz & Ed). fold s in Hreg, Hr, Hz. rewrite <- ET in Hz.
+        destruct (settle_timer_live s1 t z Hz Lz) as (z' & Hz' & Lz' & Ed'). rewrite <- book_s' in Hz'.
+        exists rec, t, z'. rewrite book_kmap, GR, Gq. repeat split; auto. congruence.
+      + intros Hs q Hq. rewrite S2, ER in Hq. rewrite (pkr_mono s s' q M Hq), GR, Gq. now apply (rr_bo _ _ HRR).
+      + intros key i0 Hi. destruct (rr_ent _ _ HRR _ _ Hi) as (r0 & L0 & E0). fold s in L0, E0. exists r0. split; [apply (mo_recs _ _ M r0 L0) | now rewrite (pkr_mono s s' r0 M L0)].
+  Qed.
+End Book.
+
+(* ------------------------------------------------------------------ *)
+(* every event *)
+Section Next.
+  Variables (m : mst) (h : hst) (a : ast).
+  Hypothesis Hh : HR h.
+  Hypothesis Hrel : Rel m h.
+  Hypothesis HK : RK (m_ref m) (hs h).
+  Hypothesis HRa : R (hs h) a.
+  Hypothesis HAD : AD (hs h).
+  Hypothesis HT : m_tims m = map (tcode3 (timers (hs h))) (fired_sorted (timers (hs h))).
+  Hypothesis HRR : RRet m (hs h).
+
+  Theorem RRet_next e ev rets : DecCase h e ev rets -> RRet (fst (mon1 m e (pobs_of rets (next h ev) (hlog h)))) (next h ev).
+  Proof.
+    intros Hc. pose proof (Reach_J _ (hr_reach _ Hh)) as HJ. pose proof (Reach_J2 _ (hr_reach _ Hh)) as HJ2.
+    destruct (quiet ev) eqn:Eq.
+    - (* neither a bookkeeping section nor a timer callback *)
+      destruct (POJ_next_quiet (hs h) ev Eq HJ HJ2) as (_ & _ & HP).
+      apply (RRet_nolog m h a Hh Hrel HK HRa HAD HT HRR e ev rets Hc (fun _ => False)); [apply PO_POx; exact HP | intros t []].
+    - destruct Hc; try discriminate Eq.
+      + (* the bookkeeping section *) now apply (RRet_book m h Hh Hrel HRR i x o).
+      + (* a timer callback *)
+        set (X := fun t' => t' = t /\ has_ctx (hs h) = false).
+        assert (HP : POx X (hs h) (next h (ETimerCb t))).
+        { unfold next. cbn [step]. apply (POx_PO_trans X _ (timer_cb repaired (hs h) t)); [now apply PO_timer_cb|].
+          destruct (PJJ_step (hs h) (ETimerCb t) HJ) as [J1 J21]. cbn [step] in J1, J21. specialize (J21 HJ2).
+          destruct (POJ_settle (timer_cb repaired (hs h) t) J1 J21) as (_ & _ & G). exact G. }
+        apply (RRet_nolog m h a Hh Hrel HK HRa HAD HT HRR [18; j] (ETimerCb t) [] (DC18 h j t H) X HP).
+        intros t' [_ Hc0]. destruct (e_live m [18; j]) eqn:El; [|reflexivity]. pose proof (e_live_has_ctx m [18; j] (hs h) (rel_ctx _ _ Hrel) El). congruence.
+  Qed.
+
+  Theorem c75_holds e ev rets : DecCase h e ev rets -> c75 m e (pobs_of rets (next h ev) (hlog h)) = true.
+  Proof.
+    intros Hc. apply (c75_of_RRet m e _ (fst (mon1 m e (pobs_of rets (next h ev) (hlog h)))) (next h ev)).
+    - apply Reach_settle, Reach_step, Hh.
+    - apply AD_settle.
+    - now apply RRet_next.
+    - reflexivity.
+    - destruct Hrel as [RC _ _ _ _]. destruct (RCfg_step m h e ev rets (pobs_of rets (next h ev) (hlog h)) Hc RC) as (_ & _ & C). exact C.
+    - reflexivity.
+  Qed.
+End Next.
